@@ -26,13 +26,22 @@ def _fz(v):
 
 
 def _items(d):
-    if not isinstance(d, dict):
+    if type(d) is dict:
+        if not d:
+            return ()
+    elif not isinstance(d, dict):
         return ("notdict", _fz(d))
-    return tuple((_fz(k), _fz(v)) for k, v in d.items())
+    return tuple([(k if type(k) is str else _fz(k), v if type(v) is str else _fz(v)) for k, v in d.items()])
 
 
 def _ns_items(d):
-    if not isinstance(d, dict):
+    if type(d) is dict:
+        if not d:
+            return ()
+        if len(d) == 1:
+            for k, v in d.items():
+                return ((k if type(k) is str else _fz(k), v if type(v) is str else _fz(v)),)
+    elif not isinstance(d, dict):
         return ("notdict", _fz(d))
     try:
         return tuple(sorted(((_fz(k), _fz(v)) for k, v in d.items()), key=repr))
@@ -132,16 +141,24 @@ class World:
         nodes = self.nodes
         owner = self.owner
         store = Node.store
-        if isinstance(store, dict):
-            for obj in list(store.values()):
-                if isinstance(obj, Node):
-                    self.handle(obj, sess)
         s = Snap()
         cells = s.cells
         listers = s.listers
         i = 0
         get = store.get if isinstance(store, dict) else (lambda k, d=None: d)
-        while i < len(nodes):
+        swept = False
+        while True:
+            if i >= len(nodes):
+                # nodes reachable from known ones are bound first (they inherit the
+                # owner of whoever reaches them); what is only in the registry comes last
+                if swept or not isinstance(store, dict):
+                    break
+                swept = True
+                h_of = self.h_of
+                for obj in list(store.values()):
+                    if id(obj) not in h_of and isinstance(obj, Node):
+                        self.handle(obj, sess)
+                continue
             n = nodes[i]
             if n is None:
                 cells.append(None)
@@ -173,7 +190,11 @@ class World:
             else:
                 ph = ("notnode", type(p).__name__)
             nid = n.id
-            fields = (_fz(nid), _fz(n.name), _fz(n.content), _fz(n.tail), _fz(n.prefix),
+            nm, co, ta, px = n.name, n.content, n.tail, n.prefix
+            fields = (nid if type(nid) is str else _fz(nid), nm if type(nm) is str else _fz(nm),
+                      co if co is None or type(co) is str else _fz(co),
+                      ta if ta is None or type(ta) is str else _fz(ta),
+                      px if px is None or type(px) is str else _fz(px),
                       _items(n.attributes), _items(n.extras))
             try:
                 reg = get(nid) is n
